@@ -26,7 +26,7 @@ def tlc_mc(module, cfg, work, workers=4, timeout=1500, simulate=None, want_repla
     cmd += [os.path.join(R.SPEC, module + '.tla')]
     t0 = time.time()
     try:
-        r = subprocess.run(cmd, env=env, cwd=md, stdout=subprocess.PIPE, stderr=subprocess.STDOUT, text=True, timeout=timeout)
+        r = subprocess.run(cmd, env=env, cwd=md, stdout=subprocess.PIPE, stderr=subprocess.STDOUT, text=True, timeout=timeout, preexec_fn=R.child_setup)
     except subprocess.TimeoutExpired:
         raise R.ToolError('TLC timed out on ' + cfg)
     out = r.stdout
@@ -67,7 +67,7 @@ def apalache_ind(work, cinit, expect_ok, mod='FramerAbs'):
     for init, length in (('Init', 0), ('IndInit', 1)):
         try:
             r = subprocess.run(['apalache-mc', 'check', '--cinit=' + cinit, '--init=' + init, '--inv=IndInv', '--length=%d' % length,
-                                '--out-dir=' + out_dir, spec], cwd=work, env=dict(os.environ, JVM_ARGS='-Djava.io.tmpdir=' + work), stdout=subprocess.PIPE, stderr=subprocess.STDOUT, text=True, timeout=900)
+                                '--out-dir=' + out_dir, spec], cwd=work, env=dict(os.environ, JVM_ARGS='-Djava.io.tmpdir=' + work), stdout=subprocess.PIPE, stderr=subprocess.STDOUT, text=True, timeout=900, preexec_fn=R.child_setup)
         except subprocess.TimeoutExpired:
             raise R.ToolError('apalache timed out on ' + mod + ' (' + cinit + ')')
         ok = 'EXITCODE: OK' in r.stdout
@@ -100,7 +100,7 @@ def models_for(pid, tier):
         'C05': [('MC_Framer', 'MC_Framer.cfg', 'pass')],
         'C06': [('MC_Codec', 'MC_Codec.cfg', 'pass')],
         'C07': [('MC_Codec', 'MC_Codec.cfg', 'pass')],
-        'C08': [('MC_Codec', 'MC_Codec.cfg', 'pass'), ('MC_Stmts', 'MC_Stmts.cfg', 'pass')],
+        'C08': [('MC_Codec', 'MC_Codec.cfg', 'pass'), ('MC_Stmts', 'MC_Stmts.cfg', 'pass'), ('MC_Stmts', 'MCdev_Stmts_emptylong.cfg', 'fail')],
         'C09': [('MC_Codec', 'MC_Codec.cfg', 'pass')],
         'C10': [('MC_Stmts', 'MC_Stmts_deep.cfg' if deep else 'MC_Stmts.cfg', 'pass'), ('MC_Stmts', 'MCdev_Stmts_noremove.cfg', 'fail'),
                 ('MC_Stmts', 'MCdev_Stmts_stale.cfg', 'fail')],
@@ -111,7 +111,8 @@ def models_for(pid, tier):
         'C14': [('MC_Codec', 'MC_Codec.cfg', 'pass')],
         'C15': [('MC_Codec', 'MC_Codec.cfg', 'pass')],
         'C16': [('MC_Stmts', 'MC_Stmts_deep.cfg' if deep else 'MC_Stmts.cfg', 'pass'), ('MC_Stmts', 'MCdev_Stmts_flag.cfg', 'fail')],
-        'C17': [('MC_Stmts', 'MC_Stmts_deep.cfg' if deep else 'MC_Stmts.cfg', 'pass'), ('MC_Stmts', 'MCdev_Stmts_noclear.cfg', 'fail')],
+        'C17': [('MC_Stmts', 'MC_Stmts_deep.cfg' if deep else 'MC_Stmts.cfg', 'pass'), ('MC_Stmts', 'MCdev_Stmts_noclear.cfg', 'fail'),
+                ('MC_Stmts', 'MCdev_Stmts_clearall.cfg', 'fail'), ('MC_Stmts', 'MCdev_Stmts_emptylong.cfg', 'fail')],
         'C18': [('MC_Tls', 'MC_Tls.cfg', 'pass'), ('MC_Tls', 'MCdev_Tls_keep.cfg', 'fail'), ('MC_Tls', 'MCdev_Tls_nothing.cfg', 'fail'),
                 ('MC_Tls', 'MCdev_Tls_fromstart.cfg', 'fail'), ('MC_TlsWrite', 'MC_TlsWrite.cfg', 'pass'),
                 ('MC_TlsWrite', 'MCdev_TlsWrite_queueonly.cfg', 'fail')],
